@@ -1,6 +1,7 @@
 package main
 
 import (
+	"bytes"
 	"encoding/json"
 	"fmt"
 	"math"
@@ -187,8 +188,8 @@ func plainData(t reflect.Type, d int) bool {
 }
 
 type valFacts struct {
-	nanInf      bool
-	invalidUTF8 bool
+	nanInf       bool
+	invalidUTF8  bool
 	nilContainer bool
 }
 
@@ -324,6 +325,19 @@ func safeEncode(val interface{}, o encoder.Options) (out []byte, err error, pan 
 	return
 }
 
+// freshEncode encodes into a fresh 16-byte buffer: every growth step of the output happens
+// inside this one call, whatever earlier calls left in the encoder's buffer pool.
+func freshEncode(val interface{}, o encoder.Options) (out []byte, err error, pan string) {
+	defer func() {
+		if r := recover(); r != nil {
+			pan = fmt.Sprint(r)
+		}
+	}()
+	buf := make([]byte, 0, 16)
+	err = encoder.EncodeInto(&buf, val, o)
+	return buf, err, ""
+}
+
 func typeHas(t reflect.Type, pred func(reflect.Type) bool, d int) bool {
 	if d > 6 {
 		return false
@@ -371,6 +385,21 @@ func c04judge(cs c04case, t reflect.Type, rv reflect.Value, val interface{}) *ev
 	}
 	if pan != "" {
 		return mk("panic", "error value or output", pan)
+	}
+	if strings.HasPrefix(cs.Extra, "long-string") {
+		// the same value into a fresh small buffer: the output grows several times inside one
+		// call (the pooled buffer used above is usually large already)
+		out2, err2, pan2 := freshEncode(val, o)
+		if pan2 != "" {
+			return mk("panic(fresh-buffer)", "error value or output", pan2)
+		}
+		if (err == nil) != (err2 == nil) || !bytes.Equal(out, out2) {
+			i := 0
+			for i < len(out) && i < len(out2) && out[i] == out2[i] {
+				i++
+			}
+			return mk("output-depends-on-the-capacity-of-the-output-buffer", fmt.Sprintf("%d bytes, err=%v (pooled buffer)", len(out), err), fmt.Sprintf("%d bytes, err=%v (fresh 16-byte buffer); first difference at byte %d", len(out2), err2, i))
+		}
 	}
 	_, jerr, jpan := safeMarshal(json.Marshal, val)
 	var facts valFacts
